@@ -408,4 +408,252 @@ theorem normalizeMaxR_pos_smul {D : Nat} (tiny : ℝ) {c : ℝ} (hc : 0 < c) (y 
   have hn : 0 < Real.sqrt (∑ d, y d * y d) := lt_of_lt_of_le ht h1
   field_simp
 
+/-! ### NaN-freedom in a special-values model (C01, logical core of the floating-point clause)
+
+The generic `Posterior.affiliation` is instantiated once more, at `SV`: exact reals plus `+∞`, `-∞`, `NaN` with the
+IEEE rules for the special values (`∞ - ∞`, `0 · ∞`, `0/0`, `∞/∞` are NaN; comparisons with NaN are false; `max` is
+Lean's `Float` `max`).  No rounding and no overflow threshold: what is captured is exactly where NaNs can be *created*. -/
+
+/-- IEEE special values without rounding and without an overflow threshold: exact reals plus `±∞` and `NaN`. -/
+inductive SV
+  | fin (r : ℝ)
+  | pinf
+  | ninf
+  | nan
+
+namespace SV
+open Classical in
+noncomputable def add : SV → SV → SV
+  | nan, _ => nan
+  | _, nan => nan
+  | fin a, fin b => fin (a + b)
+  | pinf, ninf => nan
+  | ninf, pinf => nan
+  | pinf, _ => pinf
+  | _, pinf => pinf
+  | ninf, _ => ninf
+  | _, ninf => ninf
+
+def neg : SV → SV
+  | fin a => fin (-a)
+  | pinf => ninf
+  | ninf => pinf
+  | nan => nan
+
+open Classical in
+noncomputable def mul : SV → SV → SV
+  | nan, _ => nan
+  | _, nan => nan
+  | fin a, fin b => fin (a * b)
+  | fin a, pinf => if a = 0 then nan else if 0 < a then pinf else ninf
+  | fin a, ninf => if a = 0 then nan else if 0 < a then ninf else pinf
+  | pinf, fin a => if a = 0 then nan else if 0 < a then pinf else ninf
+  | ninf, fin a => if a = 0 then nan else if 0 < a then ninf else pinf
+  | pinf, pinf => pinf
+  | ninf, ninf => pinf
+  | pinf, ninf => ninf
+  | ninf, pinf => ninf
+
+open Classical in
+noncomputable def div : SV → SV → SV
+  | nan, _ => nan
+  | _, nan => nan
+  | fin a, fin b => if b = 0 then (if a = 0 then nan else if 0 < a then pinf else ninf) else fin (a / b)
+  | fin _, pinf => fin 0
+  | fin _, ninf => fin 0
+  | pinf, fin b => if 0 ≤ b then pinf else ninf
+  | ninf, fin b => if 0 ≤ b then ninf else pinf
+  | pinf, pinf => nan
+  | pinf, ninf => nan
+  | ninf, pinf => nan
+  | ninf, ninf => nan
+
+open Classical in
+/-- `x ≤ y` as IEEE compares (false whenever a NaN is involved) -/
+noncomputable def le : SV → SV → Bool
+  | nan, _ => false
+  | _, nan => false
+  | fin a, fin b => decide (a ≤ b)
+  | ninf, _ => true
+  | _, pinf => true
+  | _, _ => false
+
+/-- Lean's `Float` `max` / `min`: `if x ≤ y then y else x` / `if x ≤ y then x else y` -/
+noncomputable def max (x y : SV) : SV := if le x y then y else x
+noncomputable def min (x y : SV) : SV := if le x y then x else y
+
+noncomputable def exp : SV → SV
+  | fin a => fin (Real.exp a)
+  | pinf => pinf
+  | ninf => fin 0
+  | nan => nan
+
+noncomputable instance : Add SV := ⟨add⟩
+noncomputable instance : Sub SV := ⟨fun a b => add a (neg b)⟩
+noncomputable instance : Mul SV := ⟨mul⟩
+noncomputable instance : Div SV := ⟨div⟩
+noncomputable instance : Max SV := ⟨max⟩
+noncomputable instance : Min SV := ⟨min⟩
+instance : OfNat SV 0 := ⟨fin 0⟩
+instance : OfNat SV 1 := ⟨fin 1⟩
+noncomputable instance : Transc SV := ⟨exp, fun _ => nan, fun _ => nan⟩
+
+@[simp] theorem fin_add (a b : ℝ) : (fin a + fin b : SV) = fin (a + b) := rfl
+@[simp] theorem fin_mul (a b : ℝ) : (fin a * fin b : SV) = fin (a * b) := rfl
+@[simp] theorem fin_sub (a b : ℝ) : (fin a - fin b : SV) = fin (a - b) := by
+  show add (fin a) (neg (fin b)) = _; simp [neg, add, sub_eq_add_neg]
+@[simp] theorem ninf_sub_fin (b : ℝ) : (ninf - fin b : SV) = ninf := rfl
+@[simp] theorem exp_fin (a : ℝ) : (Transc.exp (fin a) : SV) = fin (Real.exp a) := rfl
+@[simp] theorem exp_ninf : (Transc.exp ninf : SV) = fin 0 := rfl
+@[simp] theorem zero_eq : (0 : SV) = fin 0 := rfl
+@[simp] theorem one_eq : (1 : SV) = fin 1 := rfl
+theorem fin_div {a b : ℝ} (hb : b ≠ 0) : (fin a / fin b : SV) = fin (a / b) := by
+  show div (fin a) (fin b) = _; simp [div, hb]
+theorem max_fin (a b : ℝ) : (Max.max (fin a) (fin b) : SV) = fin (Max.max a b) := by
+  show max (fin a) (fin b) = _
+  unfold max le
+  by_cases h : a ≤ b <;> simp [h, le_of_not_ge]
+theorem max_ninf_fin (b : ℝ) : (Max.max ninf (fin b) : SV) = fin b := by
+  show max ninf (fin b) = _; simp [max, le]
+theorem max_fin_ninf (a : ℝ) : (Max.max (fin a) ninf : SV) = fin a := by
+  show max (fin a) ninf = _; simp [max, le]
+theorem max_ninf_ninf : (Max.max ninf ninf : SV) = ninf := by
+  show max ninf ninf = _; simp [max, le]
+
+theorem add_nan (x : SV) : (x + nan : SV) = nan := by
+  show add x nan = nan; cases x <;> rfl
+theorem nan_mul (x : SV) : (nan * x : SV) = nan := by
+  show mul nan x = nan; cases x <;> rfl
+theorem nan_div (x : SV) : (nan / x : SV) = nan := by
+  show div nan x = nan; cases x <;> rfl
+theorem ninf_sub_ninf : (ninf - ninf : SV) = nan := rfl
+theorem exp_nan : (Transc.exp nan : SV) = nan := rfl
+theorem max_nan (x : SV) : (Max.max nan x : SV) = nan := by
+  show max nan x = nan; simp [max, le]
+
+/-- entries that are finite or `-∞` (what a log-pdf array may contain) -/
+def Good (x : SV) : Prop := x = ninf ∨ ∃ r, x = fin r
+
+theorem vsum_fin {n : Nat} (x : Fin n → ℝ) : vsum (fun k => fin (x k)) = fin (∑ k, x k) := by
+  unfold vsum
+  induction n with
+  | zero => simp [Fin.foldl_zero]
+  | succ n ih =>
+    rw [Fin.foldl_succ_last, Fin.sum_univ_castSucc]
+    have := ih (fun i => x i.castSucc)
+    simp only [this, fin_add]
+
+theorem vsum_last_nan {n : Nat} (f : Fin (n+1) → SV) (h : f (Fin.last n) = nan) : vsum f = nan := by
+  unfold vsum
+  rw [Fin.foldl_succ_last, h, add_nan]
+
+/-- `np.amax` over finite / `-∞` entries: `-∞` iff all entries are `-∞`, otherwise the largest finite entry -/
+theorem vmax_good {n : Nat} (f : Fin (n+1) → SV) (hf : ∀ k, Good (f k)) :
+    (vmax f = ninf ∧ ∀ k, f k = ninf) ∨ ∃ m, vmax f = fin m ∧ (∃ k, f k = fin m) ∧ ∀ k r, f k = fin r → r ≤ m := by
+  induction n with
+  | zero =>
+    have h0 : vmax f = f 0 := by simp [vmax, Fin.foldl_zero]
+    rcases hf 0 with h | ⟨r, h⟩
+    · left; refine ⟨by rw [h0, h], fun k => ?_⟩
+      have : k = 0 := by omega
+      rw [this, h]
+    · right; refine ⟨r, by rw [h0, h], ⟨0, h⟩, fun k r' hk => ?_⟩
+      have : k = 0 := by omega
+      rw [this, h] at hk; cases hk; exact le_rfl
+  | succ n ih =>
+    have hstep : vmax f = Max.max (vmax fun i => f i.castSucc) (f (Fin.last (n+1))) := by
+      unfold vmax
+      rw [Fin.foldl_succ_last]
+      simp only [Fin.succ_castSucc, Fin.castSucc_zero, Fin.succ_last]
+    rcases ih (fun i => f i.castSucc) (fun k => hf _) with ⟨h1, h2⟩ | ⟨m, h1, ⟨k1, hk1⟩, h3⟩
+    · rcases hf (Fin.last (n+1)) with hl | ⟨r, hl⟩
+      · left; refine ⟨by rw [hstep, h1, hl, max_ninf_ninf], fun k => ?_⟩
+        rcases Fin.eq_castSucc_or_eq_last k with ⟨j, rfl⟩ | rfl
+        · exact h2 j
+        · exact hl
+      · right; refine ⟨r, by rw [hstep, h1, hl, max_ninf_fin], ⟨_, hl⟩, fun k r' hk => ?_⟩
+        rcases Fin.eq_castSucc_or_eq_last k with ⟨j, rfl⟩ | rfl
+        · rw [h2 j] at hk; cases hk
+        · rw [hl] at hk; cases hk; exact le_rfl
+    · rcases hf (Fin.last (n+1)) with hl | ⟨r, hl⟩
+      · right; refine ⟨m, by rw [hstep, h1, hl, max_fin_ninf], ⟨k1.castSucc, hk1⟩, fun k r' hk => ?_⟩
+        rcases Fin.eq_castSucc_or_eq_last k with ⟨j, rfl⟩ | rfl
+        · exact h3 j r' hk
+        · rw [hl] at hk; cases hk
+      · right; refine ⟨Max.max m r, by rw [hstep, h1, hl, max_fin], ?_, fun k r' hk => ?_⟩
+        · rcases max_cases m r with ⟨he, _⟩ | ⟨he, _⟩
+          · exact ⟨k1.castSucc, by rw [he]; exact hk1⟩
+          · exact ⟨Fin.last (n+1), by rw [he]; exact hl⟩
+        · rcases Fin.eq_castSucc_or_eq_last k with ⟨j, rfl⟩ | rfl
+          · exact le_trans (h3 j r' hk) (le_max_left _ _)
+          · rw [hl] at hk; cases hk; exact le_max_right _ _
+
+theorem maskVal_sv (b : Bool) : (maskVal b : SV) = fin (if b then 1 else 0) := by
+  unfold maskVal; cases b <;> rfl
+
+/-- the real value of `exp (lp k - max)` in the special-values model -/
+noncomputable def expShift (x : SV) (m : ℝ) : ℝ :=
+  match x with
+  | fin r => Real.exp (r - m)
+  | _ => 0
+
+theorem exp_sub_good {x : SV} (hx : Good x) (m : ℝ) : (Transc.exp (x - fin m) : SV) = fin (expShift x m) := by
+  rcases hx with h | ⟨r, h⟩ <;> subst h <;> simp [expShift]
+
+theorem expShift_nonneg (x : SV) (m : ℝ) : 0 ≤ expShift x m := by
+  unfold expShift; split
+  · exact (Real.exp_pos _).le
+  · exact le_rfl
+
+/-- **no NaN in the special-values model**: finite non-negative weights, `tiny > 0`, every log-pdf finite or `-∞`
+and at least one finite ⇒ every posterior is a finite real in `[0, 1]` (with or without a mask).  The value is
+`x_k / max(Σ x, tiny)` with `x_k = exp(lp_k - max) · w_k · mask_k`, the real-arithmetic formula of the theorems above. -/
+theorem affiliation_finite {K : Nat} {t : ℝ} (ht : 0 < t) (wr : Fin (K+1) → ℝ) (hw : ∀ k, 0 ≤ wr k)
+    (lp : Fin (K+1) → SV) (hlp : ∀ k, Good (lp k)) (hfin : ∃ k r, lp k = fin r)
+    (mask : Option (Fin (K+1) → Bool)) (k : Fin (K+1)) :
+    ∃ r : ℝ, Posterior.affiliation (fin t) none (fun k => fin (wr k)) lp mask k = fin r ∧ 0 ≤ r ∧ r ≤ 1 := by
+  rcases vmax_good lp hlp with ⟨_, hall⟩ | ⟨m, hm, _, _⟩
+  · obtain ⟨k0, r0, h0⟩ := hfin
+    rw [hall k0] at h0; cases h0
+  · set x : Fin (K+1) → ℝ := fun k => expShift (lp k) m * wr k * mfac mask k with hx
+    have hx0 : ∀ k, 0 ≤ x k := fun k =>
+      mul_nonneg (mul_nonneg (expShift_nonneg _ _) (hw k)) (mfac_nonneg mask k)
+    have hu : ∀ k, unnorm (fun k => fin (wr k)) lp mask k = fin (x k) := by
+      intro k
+      unfold unnorm applyMask
+      rw [hm]
+      cases mask with
+      | none => simp only [exp_sub_good (hlp k), fin_mul, hx, mfac, mul_one]
+      | some msk =>
+        simp only [exp_sub_good (hlp k), fin_mul, maskVal_sv, hx, mfac]
+    have hden : denominator (fin t) (fun k => fin (wr k)) lp mask = fin (Max.max (∑ j, x j) t) := by
+      unfold denominator
+      have : unnorm (fun k => fin (wr k)) lp mask = fun k => fin (x k) := funext hu
+      rw [this, vsum_fin, max_fin]
+    have hpos : 0 < Max.max (∑ j, x j) t := lt_of_lt_of_le ht (le_max_right _ _)
+    refine ⟨x k / Max.max (∑ j, x j) t, ?_, div_nonneg (hx0 k) hpos.le, ?_⟩
+    · unfold Posterior.affiliation clip
+      simp only [hu, hden]
+      exact fin_div hpos.ne'
+    · rw [div_le_one hpos]
+      exact le_trans (Finset.single_le_sum (fun j _ => hx0 j) (Finset.mem_univ k)) (le_max_left _ _)
+
+/-- … and the hypothesis "at least one finite log-pdf" is forced: when the log-pdf of EVERY class is `-∞`
+the routine computes `-∞ - (-∞)` and every posterior of that observation is NaN (known finding of C01) -/
+theorem affiliation_nan_of_all_ninf {K : Nat} (tiny : SV) (w : Fin (K+1) → SV) (lp : Fin (K+1) → SV)
+    (hall : ∀ k, lp k = ninf) (k : Fin (K+1)) :
+    Posterior.affiliation tiny none w lp none k = nan := by
+  have hmax : vmax lp = ninf := by
+    rcases vmax_good lp (fun k => Or.inl (hall k)) with ⟨h, _⟩ | ⟨m, _, ⟨k1, hk1⟩, _⟩
+    · exact h
+    · rw [hall k1] at hk1; cases hk1
+  have hu : ∀ k, unnorm w lp none k = nan := by
+    intro k
+    unfold unnorm applyMask
+    simp only [hmax, hall k, ninf_sub_ninf, exp_nan, nan_mul]
+  unfold Posterior.affiliation clip
+  simp only [hu, nan_div]
+
+end SV
+
 end PbBss.PosteriorProof
